@@ -103,6 +103,15 @@ Theorem C01_step_read_dir : forall (s : fsys) (sv : sview) (cs : list str),
   obs_sim (proj_res Linux (read_dir s (sv_view sv) (abs_path cs))) (go_read_dir s sv (abs_path cs)).
 Proof. exact step_read_dir. Qed.
 
+(* WriteFile: OpenFile(O_WRONLY|O_CREATE|O_TRUNC), Write, Close - against open(2) with the same flags + write *)
+Theorem C01_step_write_file : forall (s : fsys) (sv : sview) (w : list str) (cl : str) (data : list N) (perm : N),
+  step_hyps s sv -> path_ok s sv SlLstat (w ++ [cl]) -> path_ok s sv SlEval (w ++ [cl]) ->
+  no_setgid_parent_follow s sv (w ++ [cl]) ->
+  (fst (write_file s (sv_view sv) (abs_path (w ++ [cl])) data perm),
+   proj_res Linux (snd (write_file s (sv_view sv) (abs_path (w ++ [cl])) data perm)))
+  = go_write_file s sv (abs_path (w ++ [cl])) data perm.
+Proof. exact step_write_file. Qed.
+
 (* one step of the two step functions of the models (the statement the oracle stream's "T" column tests):
    covered call => same projected result, and the abstraction relation is kept (same file system, same view) *)
 Theorem C01_step : forall (w : world) (vi : nat) (sw : sworld) (c : call),
